@@ -13,8 +13,9 @@
 
 #define MAXI 8192
 #define MAXW 4096
-enum { K_ASYNC, K_BASYNC, K_SYNC, K_BSYNC, K_AAW, K_BAAW };
-static const char *KN[] = { "ra", "ba", "rs", "bs", "rw", "bw" };
+enum { K_ASYNC, K_BASYNC, K_SYNC, K_BSYNC, K_AAW, K_BAAW, K_GASYNC };
+static const char *KN[] = { "ra", "ba", "rs", "bs", "rw", "bw", "ga" };
+static dispatch_group_t g_grp;
 enum { B_NONE, B_SPIN, B_OWNSUSP, B_CHILD };
 
 typedef struct item {
@@ -75,9 +76,10 @@ static void submit(item_t *it)
 	case K_BSYNC: dispatch_barrier_sync_f(g_q, it, item_fn); break;
 	case K_AAW: dispatch_async_and_wait_f(g_q, it, item_fn); break;
 	case K_BAAW: dispatch_barrier_async_and_wait_f(g_q, it, item_fn); break;
+	case K_GASYNC: dispatch_group_async_f(g_grp, g_q, it, item_fn); break;
 	}
 	it->ret_seq = vrt_api("Ret", g_obj, it->id, it->kind, 0);
-	if (it->kind >= K_SYNC) {
+	if (it->kind >= K_SYNC && it->kind != K_GASYNC) {
 		/* C05: a synchronous submission returns after completion and sees the item's writes */
 		if (atomic_load(&it->runs) != 1 || it->end_seq == 0) oracle_fail("C05", "sync returned before its item finished", it->id, it->kind);
 		if (it->result != (it->id ^ 0x5a5a)) oracle_fail("C05", "item's writes not visible after sync return", it->id, it->result);
@@ -161,7 +163,8 @@ static void *client(void *arg)
 			int body = (vrt_rand() % 4 == 0) ? B_SPIN : B_NONE;
 			item_t *it = NULL;
 			if (g_W == 1) {
-				if (k < 34) it = new_item(K_ASYNC, (int)me, body);
+				if (k < 26) it = new_item(K_ASYNC, (int)me, body);
+				else if (k < 34) it = new_item(K_GASYNC, (int)me, body);
 				else if (k < 58) it = new_item(K_SYNC, (int)me, body);
 				else if (k < 63) it = new_item(K_BSYNC, (int)me, body);
 				else if (k < 68) it = new_item(K_BASYNC, (int)me, body);
@@ -172,7 +175,8 @@ static void *client(void *arg)
 				else if (g_susp && g_nest) { susp_pair(2 + (int)(vrt_rand() % 120)); continue; }
 				else it = new_item(K_ASYNC, (int)me, body);
 			} else {
-				if (k < 28) it = new_item(K_ASYNC, (int)me, body);
+				if (k < 22) it = new_item(K_ASYNC, (int)me, body);
+				else if (k < 28) it = new_item(K_GASYNC, (int)me, body);
 				else if (k < 40) it = new_item(K_BASYNC, (int)me, body);
 				else if (k < 58) it = new_item(K_SYNC, (int)me, body);
 				else if (k < 68) it = new_item(K_BSYNC, (int)me, body);
@@ -231,7 +235,7 @@ static void proj(FILE *f, const vrt_rec_t *r)
 	{
 		int isitem = !strcmp(r->name, "Call") || !strcmp(r->name, "Ret") || !strcmp(r->name, "Start") || !strcmp(r->name, "End");
 		fprintf(f, "{\"e\":\"%s\",\"t\":%d,\"i\":%ld,\"k\":\"%s\",\"n\":%llu}\n", r->name, r->tid, r->a,
-				(isitem && r->b >= 0 && r->b < 6) ? KN[r->b] : "-", (unsigned long long)r->seq);
+				(isitem && r->b >= 0 && r->b < 7) ? KN[r->b] : "-", (unsigned long long)r->seq);
 		break;
 	}
 	case VRT_ATOMIC:
@@ -336,6 +340,7 @@ int main(int argc, char **argv)
 		dispatch_queue_attr_t attr = g_Wreq == 1 ? DISPATCH_QUEUE_SERIAL : DISPATCH_QUEUE_CONCURRENT;
 		if (g_exec_inactive) attr = dispatch_queue_attr_make_initially_inactive(attr);
 		g_q = dispatch_queue_create("verif.lane", attr);
+		if (!g_grp) g_grp = dispatch_group_create();
 		if (g_Wreq > 1 && !g_exec_inactive) {
 			/* narrow the queue so that "no width left" / PENDING_BARRIER paths are reachable */
 			dispatch_queue_set_width(g_q, g_Wreq);
@@ -372,6 +377,8 @@ int main(int argc, char **argv)
 			for (int i = 0; i < n; i++) if (atomic_load(&g_items[i].runs) == 0) pending++;
 			if ((n == before + 1 && pending == 0 && atomic_load(&g_pending_resume) == 0) || round > 200) break;
 		}
+		if (dispatch_group_wait(g_grp, dispatch_time(DISPATCH_TIME_NOW, 20ll * NSEC_PER_SEC)) != 0)
+			oracle_fail("C01", "dispatch_group_async items all ran but the group never emptied", 0, 0);
 		check_execution(n, g_W == 1);
 		vrt_api("Quiesce", g_obj, -1, -1, 0);
 		vrt_pause(1);
